@@ -26,6 +26,10 @@ def make_msg(mid, sender):
     import mido
     if mid == RT_ID:
         return mido.Message('clock')
+    if mid % 3 == 0:
+        # a note_on with velocity 0 is a message of its own (players may treat it as a release;
+        # a port hands it over as it was sent)
+        return mido.Message('note_on', channel=sender % 16, note=mid, velocity=0)
     return mido.Message('program_change', channel=sender % 16, program=mid)
 
 
@@ -34,9 +38,16 @@ def msg_id(msg, sender_of):
     try:
         if msg.type == 'clock' and set(vars(msg)) == {'type', 'time'} and msg.time == 0:
             return RT_ID
-        if msg.type != 'program_change':
+        if msg.type == 'note_on':
+            mid = msg.note
+            if mid % 3 or msg.velocity != 0:
+                return 903
+        elif msg.type != 'program_change':
             return 900
-        mid = msg.program
+        else:
+            mid = msg.program
+            if mid % 3 == 0:
+                return 904
         if sender_of.get(mid) is None or msg.channel != sender_of[mid] % 16 or msg.time != 0:
             return 901
         return mid
@@ -338,7 +349,10 @@ def run_program(kind, initq, prog, schedule=None, rng=None, policy='random',
                             if op['m'] == RT_ID:
                                 msg.time = 99
                             else:
-                                msg.program = 127
+                                if msg.type == 'note_on':
+                                    msg.note = 127
+                                else:
+                                    msg.program = 127
                                 msg.channel = 15
                         except Exception:
                             pass
